@@ -60,7 +60,23 @@ def nontrivial_redirect(op, obs):
     return any(r[0] == "1" and r[5].lower() == req[5].lower() for r in map(items, f[5:]))
 
 
-PURE_NONTRIVIAL = {"scope": nontrivial_scope, "audience": nontrivial_audience, "hmac": nontrivial_hmac, "redirect": nontrivial_redirect}
+RENDER_ERR_OPS = ("describe", "marshal", "values", "access_error", "par_error", "introspection_error", "revocation", "authorize_error")
+
+
+def nontrivial_render(op, obs):
+    f = op.split("\t")
+    if len(f) > 4 and f[1] in RENDER_ERR_OPS:
+        for link in f[4].split("|"):
+            p = link.split(":")
+            if p[0] == "m" and len(p) == 2 and p[1]:
+                return True
+            if p[0] in ("r", "v") and len(p) == 7 and p[6] not in ("-", "x"):
+                return True
+        return False
+    return "body=json" in obs or "body=html" in obs or "Location:*" in obs
+
+
+PURE_NONTRIVIAL = {"scope": nontrivial_scope, "audience": nontrivial_audience, "hmac": nontrivial_hmac, "redirect": nontrivial_redirect, "render": nontrivial_render}
 
 HIST_RULE = ("D1 history driver: seeded histories (2-5 clients, code / hybrid / refresh / revoke / introspect / time-advance / registration-change operations, ~70% valid continuations and ~30% adversarial moves: replay of any generation, foreign or unauthenticated client, changed redirect_uri, verifier variants, mutated or foreign tokens, smuggled parameters, boundary time jumps) executed in-process against the real library over the reference store inside a synctest bubble and against the Lean model; compared per operation: outcome (+RFC error/status), storage-call log, full store dump; a history is non-trivial when an accepted credential exchange is followed by a later operation on one of its tokens; distinct = distinct op sequences")
 
@@ -133,6 +149,15 @@ PROPS = {
         assumptions=["scope strings are compared as sequences of Unicode code points in the model and bytes in Go; the scope generators use ASCII only",
                      "audience strings are transported hex-encoded byte by byte, so byte semantics are exact; net/url.Parse is trusted: the model takes its output (ok/scheme/host/path) as input and the harness re-derives it from the raw string on every execution, including replay"],
         partial=["flow confinement (no flow accepts an uncovered scope/audience; tokens never carry an ungranted one) is checked by the history correspondence and the C12 monitor clauses; Lean theorems for it exist per flow only for refresh (C05) and redeem (C02)"],
+    ),
+    "C20": dict(
+        modules=["Fosite.Props.C20"],
+        drivers=[dict(name="render", kind="pure")],
+        rule="D4 pure driver 'render': every sentinel of errors.go x {WriteAccessError, WritePushedAuthorizeError, WriteIntrospectionError, WriteRevocationResponse, WriteAuthorizeError in 6 placements (invalid redirect->JSON, query, fragment, form_post, default, unknown mode), MarshalJSON, ToValues, GetDescription} x legacy/new format x debug exposure on/off x hint/debug texts with quotes, control characters, <script>, &, %, NUL, invalid UTF-8, U+2028; hint x debug cross product; custom errors, plain Go errors, WithStack / %w / WithWrap chains, by-value errors, nil; errors.Is routing of introspection/revocation for every sentinel pair; success writers (access, authorize in all modes with hostile parameter names/values and responder headers colliding with Cache-Control/Pragma/Content-Type, introspection, PAR, device). Executed against compose.ComposeAllEnabled with the two Config switches into httptest.ResponseRecorder; the response is read back with encoding/json, a hand splitter + url.QueryUnescape, and golang.org/x/net/html (any injected element or attribute makes the body 'raw'); compared: status, all headers, body kind, redirect target, every decoded field; LEAK flag if a debug text occurs raw or decoded while exposure is off. Non-trivial = error op whose chain carries non-empty internal text, or success op that wrote a body/redirect; distinct = distinct op lines",
+        assumptions=["JSON, URL-query and html/template escaping are library parameters: the model yields the data handed to them and the harness recovers it with independent parsers",
+                     "default nil MessageCatalog (i18n not modelled); default empty ResponseModeHandler; IsRedirectURIValid is an input bit (C11's model), cross-checked in the observation"],
+        partial=["storage half of C20 (nothing handed to storage is a usable secret) is checked by the taint scan of the history driver's storage-call log (not yet a Lean theorem)",
+                 "device response: the spec prescribes nothing (implementation emits an extra \"Header\":null member); compared through the model only"],
     ),
 }
 
